@@ -17,6 +17,7 @@ deadlock is "no runnable thread"); a wait-for-graph lock in the free-running 4-t
 bytecode-level preemption. A schedule that still ends in the wall-clock watchdog aborts its workload (INCONCLUSIVE). An icontract invariant keeps len(_queue) <= max_queue_size on every
 public-method boundary.
 """
+import re
 import sys
 import threading
 import time
@@ -410,7 +411,7 @@ def run_schedule(ctx, desc, policy, label, order):
                 ctx.count("deadlocks_observed")
                 culprit = [i for i in range(len(threads)) if ("thread %d re-acquires" % i) in sc.deadlock]
                 op = running.get(culprit[0]) if culprit else None
-                waited = set(l.name for l in sc.blocked.values())
+                waited = set(re.findall(r"waits for (\S+) held", sc.deadlock))      # (sc.blocked is already being emptied by the unwinding threads)
                 mech = ("ingest-auto-digest-self-deadlock" if (op is not None and op[0] in INGEST_KINDS) else
                         "lock-order-deadlock" if (not culprit and len(waited) > 1) else "deadlock")
                 ctx.violation(mech, "deadlock observed (no runnable thread / self re-acquisition): %s; running ops %s" % (
